@@ -20,10 +20,11 @@ CONSTANT MaxLen
 
 Kinds == {"list", "str", "text", "vec", "bytes", "dict", "stream"}
 Alphabet(kind) ==
-    CASE kind \in {"list", "stream", "dict"} -> <<I(1), I(2), I(3), S("a"), S("b")>>
+    \* (0: the falsy, absorbing, neutral number)
+    CASE kind \in {"list", "stream", "dict"} -> <<I(1), I(2), I(3), S("a"), S("b"), I(0)>>
       [] kind = "str" -> <<S("a"), S("b")>>
       [] kind = "text" -> <<S("a"), S(" "), S("\n")>>
-      [] kind \in {"vec", "bytes"} -> <<I(1), I(2), I(3)>>
+      [] kind \in {"vec", "bytes"} -> <<I(1), I(2), I(3), I(0)>>
 \* "text" inputs are strings, too
 KindOf(kind) == IF kind = "text" THEN "str" ELSE kind
 
